@@ -28,7 +28,7 @@ Open Scope N_scope.
 Theorem C17_once_per_occurrence : forall byname keys nxt, (forall k t, t < nxt k t) ->
   forall t0 db0, covers keys db0 -> (byname = true -> unamb db0) ->
   forall ops, NoDup (map occ_of (starts (run byname delete_reports_rowcount update_reports_match keys nxt (init t0 db0) ops))).
-Proof. exact (once_per_occurrence _ _ eq_refl eq_refl). Qed.
+Proof. exact (once_per_occurrence delete_reports_rowcount update_reports_match eq_refl eq_refl). Qed.
 Print Assumptions C17_once_per_occurrence.
 
 (* every start is for an occurrence the row has really left ... *)
@@ -36,7 +36,7 @@ Theorem C17_start_only_for_consumed_occurrence : forall byname keys nxt, (forall
   forall t0 db0, covers keys db0 -> (byname = true -> unamb db0) ->
   forall ops e, In e (starts (run byname delete_reports_rowcount update_reports_match keys nxt (init t0 db0) ops)) ->
   In (occ_of e) (won (run byname delete_reports_rowcount update_reports_match keys nxt (init t0 db0) ops)).
-Proof. exact (starts_in_won _ _ eq_refl eq_refl). Qed.
+Proof. exact (starts_in_won delete_reports_rowcount update_reports_match eq_refl eq_refl). Qed.
 Print Assumptions C17_start_only_for_consumed_occurrence.
 
 (* ... and every consumed occurrence is started, or about to be (pending at a live processor), or was lost
@@ -47,7 +47,7 @@ Theorem C17_every_occurrence_accounted : forall byname keys nxt, (forall k t, t 
   In (k, n) (won s) ->
   In (k, n) (map occ_of (starts s)) \/ In (k, n) (lost s) \/
   exists i sn, pend s i = Some (k, sn) /\ t_next sn = n.
-Proof. exact (accounted _ _ eq_refl eq_refl). Qed.
+Proof. exact (accounted delete_reports_rowcount update_reports_match eq_refl eq_refl). Qed.
 Print Assumptions C17_every_occurrence_accounted.
 
 (* exactly one when no processor dies / fails between advancing the trigger and starting the workflow *)
@@ -57,7 +57,7 @@ Theorem C17_exactly_once_unless_crash : forall byname keys nxt, (forall k t, t <
   let s := run byname delete_reports_rowcount update_reports_match keys nxt (init t0 db0) ops in
   In (k, n) (won s) ->
   In (k, n) (map occ_of (starts s)) \/ exists i sn, pend s i = Some (k, sn) /\ t_next sn = n.
-Proof. exact (exactly_once_unless_crash _ _ eq_refl eq_refl). Qed.
+Proof. exact (exactly_once_unless_crash delete_reports_rowcount update_reports_match eq_refl eq_refl). Qed.
 Print Assumptions C17_exactly_once_unless_crash.
 
 (* `won` is the row history: a step either changes no row, or moves exactly one row away from its value and
@@ -68,7 +68,7 @@ Theorem C17_won_is_row_history : forall byname keys nxt, (forall k t, t < nxt k 
   (won s' = won s /\ forall k, db s' k = db s k) \/
   (exists k d, db s k = Some d /\ won s' = (k, t_next d) :: won s /\ db s' k <> Some d /\
                forall k', k' <> k -> db s' k' = db s k').
-Proof. intros byname keys nxt Hn t0 db0 Hc Hu ops o. exact (won_is_row_history _ _ eq_refl eq_refl byname keys nxt Hn t0 db0 Hc Hu _ o (reach_inv _ _ eq_refl eq_refl byname keys nxt Hn t0 db0 Hc Hu ops)). Qed.
+Proof. intros byname keys nxt Hn t0 db0 Hc Hu ops o. exact (won_is_row_history delete_reports_rowcount update_reports_match eq_refl eq_refl byname keys nxt Hn t0 db0 Hc Hu _ o (reach_inv delete_reports_rowcount update_reports_match eq_refl eq_refl byname keys nxt Hn t0 db0 Hc Hu ops)). Qed.
 Print Assumptions C17_won_is_row_history.
 
 (* a trigger created with count c >= 1: at most c starts; the row carries c minus the occurrences consumed and
@@ -82,14 +82,14 @@ Theorem C17_count_bound : forall byname keys nxt, (forall k t, t < nxt k t) ->
   | Some d => exists r, t_rem d = Some r /\ (1 <= r)%Z /\ (Z.of_nat (count_key k (won s)) + r = c)%Z
   | None => Z.of_nat (count_key k (won s)) = c
   end.
-Proof. exact (count_bound _ _ eq_refl eq_refl). Qed.
+Proof. exact (count_bound delete_reports_rowcount update_reports_match eq_refl eq_refl). Qed.
 Print Assumptions C17_count_bound.
 
 Theorem C17_count_bound_starts : forall byname keys nxt, (forall k t, t < nxt k t) ->
   forall t0 db0, covers keys db0 -> (byname = true -> unamb db0) ->
   forall ops k d0 c, db0 k = Some d0 -> t_rem d0 = Some c -> (1 <= c)%Z ->
   (Z.of_nat (count_key k (map occ_of (starts (run byname delete_reports_rowcount update_reports_match keys nxt (init t0 db0) ops)))) <= c)%Z.
-Proof. exact (count_bound_starts _ _ eq_refl eq_refl). Qed.
+Proof. exact (count_bound_starts delete_reports_rowcount update_reports_match eq_refl eq_refl). Qed.
 Print Assumptions C17_count_bound_starts.
 
 (* a removed trigger never comes back (so it never fires again: every start needs a consumed occurrence) *)
@@ -97,7 +97,7 @@ Theorem C17_removed_stays_removed : forall byname keys nxt, (forall k t, t < nxt
   forall t0 db0, covers keys db0 -> (byname = true -> unamb db0) ->
   forall ops1 ops2 k, db (run byname delete_reports_rowcount update_reports_match keys nxt (init t0 db0) ops1) k = None ->
   db (run byname delete_reports_rowcount update_reports_match keys nxt (run byname delete_reports_rowcount update_reports_match keys nxt (init t0 db0) ops1) ops2) k = None.
-Proof. intros byname keys nxt Hn t0 db0 Hc Hu ops1 ops2 k. exact (run_stays_removed _ _ eq_refl eq_refl byname keys nxt Hn t0 db0 Hc Hu ops2 _ k (reach_inv _ _ eq_refl eq_refl byname keys nxt Hn t0 db0 Hc Hu ops1)). Qed.
+Proof. intros byname keys nxt Hn t0 db0 Hc Hu ops1 ops2 k. exact (run_stays_removed delete_reports_rowcount update_reports_match eq_refl eq_refl byname keys nxt Hn t0 db0 Hc Hu ops2 _ k (reach_inv delete_reports_rowcount update_reports_match eq_refl eq_refl byname keys nxt Hn t0 db0 Hc Hu ops1)). Qed.
 Print Assumptions C17_removed_stays_removed.
 
 (* creation of a first-execution-time-only trigger (no pattern; count absent, 0 or 1; larger counts are refused):
@@ -117,7 +117,7 @@ Theorem C17_first_time_only_once : forall byname keys nxt, (forall k t, t < nxt 
   (count_key k (map occ_of (starts s)) <= 1)%nat /\
   (forall e, In e (starts s) -> e_key e = k -> e_occ e = t_next d0) /\
   (forall d, db s k = Some d -> t_next d = t_next d0 /\ count_key k (won s) = 0%nat).
-Proof. exact (first_only_run _ _ eq_refl eq_refl). Qed.
+Proof. exact (first_only_run delete_reports_rowcount update_reports_match eq_refl eq_refl). Qed.
 Print Assumptions C17_first_time_only_once.
 
 (* creation-time validation refuses: neither pattern nor first time; invalid pattern; first time less than
@@ -138,14 +138,14 @@ Theorem C17_next_forward : forall byname keys nxt, (forall k t, t < nxt k t) ->
   db s k = Some d -> db (step byname delete_reports_rowcount update_reports_match keys nxt s o) k = Some d' ->
   d' = d \/ (exists nw, nw <= now s /\ t_next d' = nxt k (N.max nw (t_next d)) /\ t_next d < t_next d' /\ nw < t_next d' /\
              t_rem d' = dec (t_rem d) /\ same_static d' d).
-Proof. intros byname keys nxt Hn t0 db0 Hc Hu ops o k d d'. exact (step_forward _ _ eq_refl eq_refl byname keys nxt Hn t0 db0 Hc Hu _ o k d d' (reach_inv _ _ eq_refl eq_refl byname keys nxt Hn t0 db0 Hc Hu ops)). Qed.
+Proof. intros byname keys nxt Hn t0 db0 Hc Hu ops o k d d'. exact (step_forward delete_reports_rowcount update_reports_match eq_refl eq_refl byname keys nxt Hn t0 db0 Hc Hu _ o k d d' (reach_inv delete_reports_rowcount update_reports_match eq_refl eq_refl byname keys nxt Hn t0 db0 Hc Hu ops)). Qed.
 Print Assumptions C17_next_forward.
 
 Theorem C17_next_monotone : forall byname keys nxt, (forall k t, t < nxt k t) ->
   forall t0 db0, covers keys db0 -> (byname = true -> unamb db0) ->
   forall ops1 ops2 k d, db (run byname delete_reports_rowcount update_reports_match keys nxt (init t0 db0) ops1) k = Some d ->
   match db (run byname delete_reports_rowcount update_reports_match keys nxt (init t0 db0) (ops1 ++ ops2)) k with Some d' => t_next d <= t_next d' | None => True end.
-Proof. exact (next_monotone _ _ eq_refl eq_refl). Qed.
+Proof. exact (next_monotone delete_reports_rowcount update_reports_match eq_refl eq_refl). Qed.
 Print Assumptions C17_next_monotone.
 
 (* every start carries the payload (workflow, input, params, trust) and the project of the trigger's own row *)
@@ -153,21 +153,21 @@ Theorem C17_context : forall byname keys nxt, (forall k t, t < nxt k t) ->
   forall t0 db0, covers keys db0 -> (byname = true -> unamb db0) ->
   forall ops e, In e (starts (run byname delete_reports_rowcount update_reports_match keys nxt (init t0 db0) ops)) ->
   exists d0, db0 (e_key e) = Some d0 /\ e_payload e = t_payload d0 /\ e_proj e = t_proj d0.
-Proof. exact (start_context _ _ eq_refl eq_refl). Qed.
+Proof. exact (start_context delete_reports_rowcount update_reports_match eq_refl eq_refl). Qed.
 Print Assumptions C17_context.
 
 (* nothing is started more than 2 s before its due time *)
 Theorem C17_not_early : forall byname keys nxt, (forall k t, t < nxt k t) ->
   forall t0 db0, covers keys db0 -> (byname = true -> unamb db0) ->
   forall ops e, let s := run byname delete_reports_rowcount update_reports_match keys nxt (init t0 db0) ops in In e (starts s) -> e_occ e < now s + 2.
-Proof. exact (not_early _ _ eq_refl eq_refl). Qed.
+Proof. exact (not_early delete_reports_rowcount update_reports_match eq_refl eq_refl). Qed.
 Print Assumptions C17_not_early.
 
 (* what the theorems above say about the code as it is: no hypothesis on names is needed iff it addresses by id *)
 Theorem C17_code_mode : lookup_by_name = false ->
   forall keys nxt, (forall k t, t < nxt k t) -> forall t0 db0, covers keys db0 ->
   forall ops, NoDup (map occ_of (starts (run lookup_by_name delete_reports_rowcount update_reports_match keys nxt (init t0 db0) ops))).
-Proof. intros Hm keys nxt Hn t0 db0 Hc. apply (once_per_occurrence _ _ eq_refl eq_refl); auto. intro H. rewrite Hm in H. discriminate. Qed.
+Proof. intros Hm keys nxt Hn t0 db0 Hc. apply (once_per_occurrence delete_reports_rowcount update_reports_match eq_refl eq_refl); auto. intro H. rewrite Hm in H. discriminate. Qed.
 Print Assumptions C17_code_mode.
 
 (* FINDING (while lookup_by_name = true): with a private trigger and another project's public trigger of the same name the lookup by name in
